@@ -231,6 +231,9 @@ def dataclass_specs(fields=None):
         # under its name nor kept as an extra key
         out.append(("dc", base, (("a", ("t", "int"), None), ("v", ("r", "int", (("ge", "0"),), "cls"), "Field(no_input=True, default=0)")),
                     "Options(addition=True)"))
+        # a field annotated Any whose Field declares constraints: any type, but the constraints hold
+        for cons in ((("const", "5"),), (("enum", "[1, 2]"),), (("max_length", "2"),), (("ge", "1"),)):
+            out.append(("dc", base, (("a", ("r", None, cons, "anyfield"), None),), None))
         # the same declaration spread over three levels of inheritance (types from the grandparent, defaults from the leaf)
         out.append(("dc", base + "3", (("a", ("r", "int", (("gt", "0"),), "cls"), "3"),), None))
         out.append(("dc", base + "3", (("a", ("g", "List", (("t", "int"),)), "[1, 2]"),), None))
